@@ -124,3 +124,13 @@ fire("C03", B, "            assert self._hash_fn(self._i_to_arg[i]) == self._has
 silent(["C03", "C06", "C09"], B, "        if sorted(self._i_to_arg) != list(range(len(self._i_to_arg))):", "        if set(self._i_to_arg) != set(range(len(self._i_to_arg))):", "equivalent guard")
 silent(["C03"], B, "        if sorted(self._i_to_arg) != list(range(len(self._i_to_arg))):", "        if self._i_to_arg and max(self._i_to_arg) != len(self._i_to_arg) - 1:", "equivalent guard (keys are distinct)")
 silent(["C03"], B, "return 1 if arg <= 0xFF else 2 if arg <= 0xFFFF else 3 if arg <= 0xFFFFFF else 4", "return 1 if arg < 0x100 else 2 if arg < 0x10000 else 3 if arg < 0x1000000 else 4", "same thresholds")
+# ---- C10
+fire("C10", L, "and prev_item.bytecode_offset >= (254 if is_linetable else 255)", "and prev_item.bytecode_offset >= (255 if is_linetable else 255)")
+fire("C10", L, "    MAX_BYTECODE = 254 if is_linetable else 255", "    MAX_BYTECODE = 255")
+fire("C10", L, "                line_offset -= 127\n", "                line_offset -= 128\n")
+fire("C10", L, "or prev_item.line_offset <= (-127 if is_linetable else -128)", "or prev_item.line_offset <= -127")
+fire("C10", L, "            if is_linetable and i.line_offset == -128", "            if i.line_offset == -128")
+fire("C10", L, 'line_offset=int.from_bytes([b[i + 1]], "big", signed=True),', 'line_offset=int.from_bytes([b[i + 1]], "big", signed=False),')
+fire("C10", L, "            while line_offset is not None and line_offset > 127:", "            while line_offset is not None and line_offset >= 127:")
+silent(["C10"], L, "and prev_item.bytecode_offset >= (254 if is_linetable else 255)", "and prev_item.bytecode_offset == (254 if is_linetable else 255)", "same set on the format's domain")
+silent(["C10"], L, "                    item.line_offset & 255,", "                    item.line_offset % 256,", "same byte")
